@@ -342,6 +342,25 @@ def k_forbidden_char(f, rng):
     return e
 
 
+@kind("prefix-used-outside-its-declaration", 3)
+def k_prefix_scope(f, rng):
+    """A namespace prefix declared through an attribute column of one row (bind::xmlns:ex, body::xmlns:ex, instance::xmlns:ex) and used in an attribute
+    column of another row (or of another part of the same row): the prefix is not in scope there, the document would not be namespace-valid."""
+    vis = [r for r, a in f.walk() if is_visible_q(r)]
+    if len(vis) < 2:
+        return None
+    d, u = rng.sample(vis, 2)
+    dc, uc = pick(rng, ["bind", "body", "instance"]), pick(rng, ["bind", "body", "instance"])
+    if rng.random() < 0.25:
+        u = d
+        uc = pick(rng, [c for c in ("bind", "body", "instance") if c != dc])
+    d.cells[f"{dc}::xmlns:exq"] = "http://example.org/exq"
+    u.cells[f"{uc}::exq:flag"] = "1"
+    e = Exp(r"prefix 'exq' .*is not declared", "none")
+    e.column = f"{dc}-declares/{uc}-uses/{'same-row' if u is d else 'other-row'}"
+    return e
+
+
 @kind("audit-named", 1)
 def k_audit_named(f, rng):
     for r, _ in list(f.walk()):
